@@ -106,6 +106,8 @@ type Op struct {
 
 type History struct {
 	Agents  []AgentSpec `json:"agents"`
+	Bulk     int        `json:"bulk,omitempty"`      // scale_test.go: this many more agents (indices len(Agents)..) with derived ids and metadata
+	BulkBase uint32     `json:"bulk_base,omitempty"` // id of the first of them
 	Existed bool        `json:"existed,omitempty"`
 	DB      string      `json:"db,omitempty"` // "fresh" | "existed" | "golden" (copy of testdata/golden-schema.db); "" = Existed decides
 	Ops     []Op        `json:"ops"`
@@ -171,17 +173,17 @@ func newRun(w *pvx.World, h History) *runState {
 }
 
 func (r *runState) agent(i int) *agent.Agent {
-	if i < 0 || i >= len(r.h.Agents) {
+	if i < 0 || i >= r.h.nAgents() {
 		return nil
 	}
-	return r.w.Agent(r.h.Agents[i].ID)
+	return r.w.Agent(r.h.spec(i).ID)
 }
 
 func (r *runState) seed(i int) byte {
 	if s, ok := r.seeds[i]; ok {
 		return s
 	}
-	return r.h.Agents[i].Seed
+	return r.h.spec(i).Seed
 }
 
 func (r *runState) listenerPk(sub int, info map[string]any) packager.Package {
@@ -306,10 +308,10 @@ func (r *runState) apply(op Op) bool {
 		return false
 	}
 
-	if op.A < 0 || op.A >= len(r.h.Agents) {
+	if op.A < 0 || op.A >= r.h.nAgents() {
 		return false
 	}
-	spec := r.h.Agents[op.A]
+	spec := r.h.spec(op.A)
 	a := r.agent(op.A)
 	if op.K == "reg" {
 		if a != nil {
@@ -329,28 +331,28 @@ func (r *runState) apply(op Op) bool {
 		k, iv := keyFrom(r.seed(op.A))
 		w.Post(demonref.Batch(spec.ID, 0, nil, k, iv))
 	case "connect":
-		if op.B < 0 || op.B >= len(r.h.Agents) || op.B == op.A {
+		if op.B < 0 || op.B >= r.h.nAgents() || op.B == op.A {
 			return false
 		}
 		// no self/ancestor connects here: they are C09's subject and make later operations hang
 		for p := a; p != nil; p = p.Pivots.Parent {
-			if p.NameID == fmt.Sprintf("%08x", r.h.Agents[op.B].ID) {
+			if p.NameID == fmt.Sprintf("%08x", r.h.spec(op.B).ID) {
 				return false
 			}
 		}
 		// ... nor an ancestor by the stored links (after a restart at any point a stored link can
 		// name a session that is not in memory; without such restarts rows and Links lists agree)
-		if storedAncestor(w, int64(r.h.Agents[op.B].ID), int64(spec.ID)) {
+		if storedAncestor(w, int64(r.h.spec(op.B).ID), int64(spec.ID)) {
 			return false
 		}
-		ch := r.h.Agents[op.B]
+		ch := r.h.spec(op.B)
 		k, iv := keyFrom(r.seed(op.B))
 		w.Callback(a, 0, pvx.CmdPivot, pvx.ConnectBody(ch.Meta.ref(ch.ID).InitPackage(ch.ID, k, iv)))
 	case "disconnect":
-		if op.B < 0 || op.B >= len(r.h.Agents) {
+		if op.B < 0 || op.B >= r.h.nAgents() {
 			return false
 		}
-		w.Callback(a, 0, pvx.CmdPivot, pvx.DisconnectBody(true, r.h.Agents[op.B].ID))
+		w.Callback(a, 0, pvx.CmdPivot, pvx.DisconnectBody(true, r.h.spec(op.B).ID))
 	case "checkin":
 		if op.M == nil {
 			return false
